@@ -52,6 +52,13 @@ def _local_aliases(module, body, default_aliases=None) -> Dict[str, str]:
     aliases: Dict[str, str] = dict(default_aliases or {})
     # flow-insensitive local aliases: name = <x>.attr | GLOBAL | self._a = {} chains
     for n in _walk_no_nested(body):
+        if isinstance(n, ast.NamedExpr) and isinstance(n.target, ast.Name):
+            # (alias := obj.attr) / (alias := GLOBAL)
+            val = n.value
+            s_ = _base_state(val, {}, module_globals) if isinstance(val, (ast.Attribute, ast.Name)) else None
+            if s_ is not None and (isinstance(val, ast.Attribute) or val.id in module.globals):
+                aliases[n.target.id] = s_
+            continue
         if isinstance(n, ast.Assign):
             tgts = n.targets
             val = n.value
@@ -280,6 +287,28 @@ def check_ownership(res, rule: str, writes: List[Write], state: str, owners: Dic
     operation, or in a private helper reachable only from owner functions.
     owners: qualname -> allowed ops ('=' , 'aug', '[]=', method names)."""
     found = [w for w in writes if w.state == state]
+    # an attribute of the same name on an unrelated class is other state: `self.<state>` stores are attributed to
+    # the class of the method they occur in, and only classes related to the owners' classes count
+    owner_classes = {q.split(".")[0] for q in owners if "." in q}
+    if owner_classes and cg is not None:
+        prog = cg.prog
+
+        def related(cname):
+            ci = prog.classes.get(cname)
+            if ci is None:
+                return True
+            for oc in owner_classes:
+                oci = prog.classes.get(oc)
+                if oci is None:
+                    return True
+                if prog.is_subclass(ci, oc) or prog.is_subclass(oci, cname):
+                    return True
+                # metaclass methods write the attributes of the classes they create
+                if oc.endswith("Meta") or cname.endswith("Meta"):
+                    return True
+            return False
+        found = [w for w in found if not (w.base_src in ("self", "cls") and w.fi is not None and w.fi.cls is not None
+                                          and not related(w.fi.cls.name))]
     for w in found:
         q = w.func
         ok = False
